@@ -408,6 +408,14 @@ func packageState(c *an.Ctx, rule string) {
 			return false, "is assigned outside package initialisation"
 		}
 		t := an.Deref(g.Type())
+		// the synchronisation types of the standard library are made to be shared
+		el := t
+		if pt, ok := el.(*types.Pointer); ok {
+			el = pt.Elem()
+		}
+		if n, ok := el.(*types.Named); ok && n.Obj().Pkg() != nil && (n.Obj().Pkg().Path() == "sync" || n.Obj().Pkg().Path() == "sync/atomic") && n.Obj().Name() != "Pool" && n.Obj().Name() != "Map" {
+			return true, ""
+		}
 		switch u := t.Underlying().(type) {
 		case *types.Basic, *types.Signature:
 			return true, ""
